@@ -213,8 +213,9 @@ PROPS = {
         "lean": "Props.C04",
         "domains": [{"name": "fingerhist-c04"}],
         "cli": True,
-        "trusted": ["the hash (xxh3-128) is uninterpreted: theorems speak of the byte stream fed to it; the harness checks that every stored "
-                    "checksum is xxh3 of the model's stream; what one glob pattern matches (mvdan/sh expansion) is an oracle",
+        "trusted": ["the hashes (xxh3-128 of the stream, xxh3-64 of its length table) are uninterpreted: theorems speak of the bytes fed to them; the "
+                    "harness checks that every stored checksum is xxh3 of the model's stream followed by xxh3 of the model's length table; what one glob "
+                    "pattern matches (mvdan/sh expansion) is an oracle",
                     "the harness's copy of the goodRun monitor is tied to the Lean definition by comparing its verdict (g=) on every step"],
         "assumptions": ["status: commands are `test -f`, commands only write their declared files and append to a trace; no deps, "
                         "no preconditions; sub-task calls only in the form `task: helper` where the helper has one `test -f` precondition and one command "
@@ -222,8 +223,10 @@ PROPS = {
                         "below the task directory (no `..`), so the name hashed with a file (its path relative to t.Dir) is its root-relative "
                         "path without the `dir/` prefix"],
         "level_text": "Theorems over TaskModel.Finger.invoke (mirror of RunTask / IsTaskUpToDate / Checksum- and TimestampChecker, the latter as "
-                      "patched by TS1-TS3 and fix M, state file names as by fix N): C04_partial (method checksum, pairwise distinct display names - "
-                      "names that merely normalise alike have distinct state files, stateKey_inj -, histories of any length made of "
+                      "patched by TS1-TS3 and fix M, state file names as by fix N and fix F8A): C04_partial (method checksum, NO hypothesis beyond pairwise "
+                      "distinct task names, which every Taskfile has - names that merely normalise alike have distinct state files, stateKey_inj; "
+                      "tasks with equal labels, or a label equal to another task's name, have distinct checksum files, sumKey_inj: the file is a "
+                      "function of the pair (task name, label) -, histories of any length made of "
                       "successful runs, runs failing in the command loop, runs cancelled at the prompt, --dry, --status, --force, list/summary "
                       "queries and arbitrary file edits: skip implies goodRun), C04_partial_timestamp_general (the same histories for ANY "
                       "method-timestamp task, distinct task names, non-decreasing clock: skip implies goodRun or a generates file newer than the "
@@ -234,14 +237,15 @@ PROPS = {
                       "nothing - no marker moved, none created -, so a source written after the last run is rebuilt however many checks lay in "
                       "between), "
                       "C04_timestamp_skip_generates_exist, and decide-checked counterexamples to C04_full over the patched model (kill for both "
-                      "methods, equal labels, method timestamp: never ran / failed run / generates "
+                      "methods, method timestamp: never ran / failed run / generates "
                       "rewritten by others - one root: a generates file as new as the sources vouches on its own). Tie: Gen.DryWiring / "
-                      "Gen.FingerOrder tables (incl. the definitions of the timestamp verdict variables, the touchMarker closure and "
-                      "stateFilename) proved equal to the skeleton the "
+                      "Gen.FingerOrder tables (incl. the definitions of the timestamp verdict variables, the touchMarker closure, "
+                      "stateFilename and checksumFilename) proved equal to the skeleton the "
                       "model was written against; random histories through the real CLI binary compared step by step (exit class, commands run, "
                       "tree incl. .task) with the model; the property monitor skip⇒goodRun evaluated on the real observations.",
         "level_note": "Trusted: Lean kernel; harness canonicalisation (mtimes rebased to a logical clock; state file names mapped back by recomputing "
-                      "xxh3 of the generated names); hashes uninterpreted (the 64-bit name hash of stateFilename idealised as injective); glob "
+                      "xxh3 of the generated names and (name, label) pairs); hashes uninterpreted (the 64-bit name hashes of stateFilename / "
+                      "checksumFilename idealised as injective); glob "
                       "expansion is an oracle.",
     },
     "C05": {
@@ -249,26 +253,39 @@ PROPS = {
         "domains": [{"name": "globs"}, {"name": "fingerhist-c05"}],
         "cli": True,
         "trusted": ["mvdan/sh glob semantics is an oracle (per-pattern match sets come from the real expander run on that pattern alone)",
-                    "hash uninterpreted; fingerprint inequality needs the explicit hypothesis HashInj on the two streams involved"],
+                    "hashes uninterpreted; fingerprint inequality needs the explicit hypothesis FpInj (no collision) on the two (stream, length table) "
+                    "pairs involved"],
         "assumptions": ["as C04; timestamp idempotence under the side conditions 'no source newer than the last run', 'the generates exist' and "
                         "(since TS2 touches the marker only when the timestamp check itself asks for the run) 'the status commands did not fail "
                         "before that run'"],
         "level_text": "Theorems: C05_globs (for every pattern list and file set: p ∈ Globs ⇔ the last pattern matching p is positive; result strictly "
-                      "sorted), C05_idem (both methods), C05_force, C05_missing_generates (both methods since TS1), C05_status_fails, C05_detect_checksum (edit/add/remove/"
-                      "rename-in-place change the stream), C05_detect_move / C05_detect_move_op (the hashed name is the path relative to the task dir, "
-                      "injective on matched paths: a move or rename to another path changes the stream), C05_mtime, and "
-                      "C05_counterexample_undelimited (name and content hashed without delimiter) with C05_detect_partial, "
+                      "sorted), C05_idem (both methods), C05_force, C05_missing_generates (both methods since TS1), C05_status_fails, C05_detect_full_inj (FULL "
+                      "detection since fix F8B: the byte stream - names and contents back to back - together with the length table - the length of every "
+                      "name and content, 8 bytes each, fed to a second hash - is an injective encoding of the list of (name, content), stream_lenTable_inj; "
+                      "so for every project with injective names, i.e. every project since F8, different lists of (path, content) of the matched files give "
+                      "a different stream or a different length table: any edit, addition, removal, rename or move and any combination of them) and "
+                      "C05_detect_full_rerun (hence, under FpInj, the task reruns), C05_undelimited_fixed / C05_undelimited_two_files_fixed (the former "
+                      "counterexamples: file ab=c against file a=bc, a byte moving between a content and the next file's name), "
+                      "C05_counterexample_undelimited_historical / C05_stream_alone_not_injective (the stream alone, all that was hashed before the fix), "
+                      "C05_detect_checksum / C05_detect_partial (edit/add/remove change the stream itself), C05_detect_move / C05_detect_move_op (the hashed "
+                      "name is the path relative to the task dir, injective on matched paths), C05_mtime, "
                       "C05_idem_timestamp_status_counterexample (timestamp idempotence without the status side condition). Tie: "
-                      "fingerprint.Globs run in-process on random trees and glob/exclude lists; CLI histories with file operations between runs.",
-        "level_note": "Trusted: Lean kernel; harness; glob expansion oracle; hash uninterpreted (HashInj explicit).",
+                      "fingerprint.Globs run in-process on random trees and glob/exclude lists; Gen.FingerOrder incl. checksumFeed (what is fed to which "
+                      "hasher, in which order); CLI histories with file operations between runs, incl. a directed stream of boundary-shift pairs (a rename "
+                      "plus an edit that moves bytes between a name and the neighbouring content); the monitor 'skipped although the commands were never "
+                      "attempted on the present list of (path, content)' on the real observations.",
+        "level_note": "Trusted: Lean kernel; harness; glob expansion oracle; hashes uninterpreted (FpInj explicit).",
     },
     "C12": {
         "lean": "Props.C12",
         "domains": [{"name": "fingerhist-c12"}],
         "cli": True,
         "trusted": ["status:/sh: commands are assumed side-effect free (they do run in query modes by design)"],
-        "assumptions": ["as C04; remote includes (cache writes) are outside the model"],
-        "level_text": "Theorems: C12_full (every read-only invocation --dry/--status/--list[-all] [--json]/--summary leaves the state unchanged and runs "
+        "assumptions": ["as C04; remote includes (cache writes: the four CacheNode writers of Gen.WriteSites, class remoteCache) are outside the model"],
+        "level_text": "write_sites_reviewed: every os call of the module that creates, changes or removes something in the file system "
+                      "(regenerated typed table Gen.WriteSites with the conditions each writer and each call site of its function sits under) is "
+                      "dry-guarded, guarded at every call site, part of a non-query action or the remote cache - the model's writers are all the writers. "
+                      "Theorems: C12_full (every read-only invocation --dry/--status/--list[-all] [--json]/--summary leaves the state unchanged and runs "
                       "no command - histories may contain `task:` calls whose precondition fails, the one thing that fails under --dry), "
                       "C12_marker_untouched / C12_dry_body_no_onError / C12_dry_failing_call (a failing call under --dry exits `failed` and changes "
                       "nothing: checker.OnError sits under !(e.Dry), onError_unreachable_when_dry, TS4; C12_dry_onError_counterexample for the "
@@ -525,15 +542,6 @@ def _same_key(m, f):
     return da != db and _norm(da) == _norm(db)
 
 
-def _same_display(m, f):
-    """method checksum: different tasks with the SAME display name (equal labels, or a label equal to the other's name)"""
-    ab = _writer_pair(m, f)
-    if not ab or f.get("method") != "checksum":
-        return False
-    a, b = ab
-    return (a.get("label") or a["name"]) == (b.get("label") or b["name"])
-
-
 def _gen_vouches(f):
     """method timestamp: before the check an existing generates file was at least as new as every source (vouch=gen), or the
     marker that vouched had been CREATED by an invocation that itself reported "up to date" (wskip=1)"""
@@ -579,8 +587,8 @@ FINDING_PREDICATES.update({
                                                      _gen_vouches(f)),
     # the stored fingerprint was written by a different task whose name normalises to the same file name (FIXED by fix N) …
     "C04-normalised-name-collision": _c04(_same_key),
-    # … or, still open, by a different checksum task with the same display name (label)
-    "C04-equal-label-collision": _c04(_same_display),
+    # (… or by a different checksum task with the same display name (label): FIXED by fix F8A, the checksum file is a function of
+    # task name AND label; no predicate: such a skip is a violation again)
     # method timestamp, last run fine, but a generates pattern matches nothing (FIXED by TS1)
     "C04-timestamp-missing-generates": _c04(lambda m, f: f.get("method") == "timestamp" and f.get("gens") == "0" and f.get("laexit") == "ok"),
     # method timestamp, the commands never ran: the generates' mtimes alone decided (no marker), or the marker a check created
